@@ -8,7 +8,7 @@
 //	sess       stateful handler, the POST carries the id of a session that has completed the legacy handshake
 //	stateless  StreamableHTTPOptions.Stateless
 //
-// The cases are enumerated by TLC (VERIF_IN, one per line); the harness concretises each one (helpers of
+// The cases are enumerated by TLC (VERIF_IN_HTTP, one per line); the harness concretises each one (helpers of
 // c06_lifecycle_test.go), sends it in process (handler.ServeHTTP with a buffering ResponseWriter, inside a
 // testing/synctest bubble: "no reply" is a fact) against a real mcp.Server whose every user-visible handler
 // counts its invocations, and records what came back, which handlers ran and how many server sessions the
@@ -223,9 +223,9 @@ func c06RunHTTPCase(t *testing.T, r *rand.Rand, id string, c c06HCase) c06HLine 
 }
 
 func TestVerif_C06Http(t *testing.T) {
-	in, outp := os.Getenv("VERIF_IN"), os.Getenv("VERIF_OUT")
+	in, outp := os.Getenv("VERIF_IN_HTTP"), os.Getenv("VERIF_OUT_HTTP")
 	if in == "" || outp == "" {
-		t.Skip("VERIF_IN/VERIF_OUT not set")
+		t.Skip("VERIF_IN_HTTP/VERIF_OUT_HTTP not set")
 	}
 	seed, _ := strconv.ParseUint(os.Getenv("VERIF_SEED"), 10, 64)
 	reps, _ := strconv.Atoi(os.Getenv("VERIF_REPS"))
